@@ -118,6 +118,7 @@ fn check_bfs_pred<D: Order + OutNeighbors + Clone>(d: &D, other: &D, m: &Model, 
     }
     if n <= 24 && src.len() == 1 && m.size() % 6 == 1 {
         crate::obs::iter_consistency(o, "BfsPred", || BfsPred::new(d, src.iter().copied()));
+        crate::obs::clone_midway(o, "BfsPred", || BfsPred::new(d, src.iter().copied()));
     }
     let vs: Vec<usize> = items.iter().map(|x| x.1).collect();
     let lv = m.levels(src);
